@@ -125,6 +125,11 @@ class Harness(object):
                         return _orig(*a, **k)
                     setattr(sock, name, wrapped)
         instrument(self.client.socket)
+        # ... and one inside the decoding of every reply (no transport operation falls between the end of the receive
+        # and the end of the transaction)
+        _CUR_SCHED[0] = s
+        for cls in _sched_response_classes():
+            self.client.framer.decoder.register(cls)
         oc = self.client.connect
 
         def connect():
@@ -289,6 +294,23 @@ def parse_name(name):
         head = head.replace('+slow', '')
         fault = ('slow', 0)
     return head.replace('+broadcast', ''), tuple(int(x) for x in sh.split('x')), '+broadcast' in head, fault
+
+
+_CUR_SCHED = [None]
+_SCHED_CLASSES = []
+
+
+def _sched_response_classes():
+    if not _SCHED_CLASSES:
+        from pymodbus.factory import ClientDecoder
+        from harness import framers as _fr
+        for cls in _fr.standard_classes(ClientDecoder):
+            def decode(self, data, _cls=cls):
+                if _CUR_SCHED[0] is not None:
+                    _CUR_SCHED[0].point('pdu-decode')
+                return _cls.decode(self, data)
+            _SCHED_CLASSES.append(type(cls.__name__, (cls,), dict(decode=decode, __doc__=cls.__doc__)))
+    return _SCHED_CLASSES
 
 
 def shard(args):
